@@ -61,6 +61,11 @@ let rec render (v : value) : string =
   | VRaw (c, t, comp, b, full) ->
     Printf.sprintf "%d.%d.%d.%s.%s" (int_of_n c) (int_of_n t) (if comp then 1 else 0) (hex_of_bytes b) (hex_of_bytes full)
   | VStruct (_, fs) -> "(" ^ String.concat "," (List.map render fs) ^ ")"
+  | VBool b -> if b then "T" else "F"
+  | VTime (g, t) -> (if g then "G" else "U") ^ hex_of_bytes t
+  | VStr (tag, t) -> Printf.sprintf "s%d.%s" (int_of_n tag) (hex_of_bytes t)
+  | VNil -> "nil"
+  | VSeq vs -> "[" ^ String.concat "," (List.map render vs) ^ "]"
   | VAbsent -> "~"
 
 let unmarshal_show k b =
@@ -107,6 +112,12 @@ let handle (f : string array) : string =
   | "A1X" -> unmarshal_show certOuterSchema (bytes_of_hex f.(2))
   | "A1T1" -> unmarshal_show t1Schema (bytes_of_hex f.(2))
   | "A1T2" -> unmarshal_show t2Schema (bytes_of_hex f.(2))
+  | "A1G" ->
+    (* encoding/asn1.Unmarshal into the Go type named f.(2): the schema the translator read from its declaration *)
+    let name = bytes_of_hex f.(2) in
+    (match List.find_opt (fun (n, _) -> n = name) gen_asn1_schemas with
+     | None -> "SKIP"
+     | Some (_, k) -> show (fun ((_, rest), _) -> "ok " ^ hex_of_bytes rest) (unmarshal k noParams (bytes_of_hex f.(3))))
   | "D" -> "SKIP"
   | _ -> "BADCASE"
 
